@@ -28,8 +28,13 @@ def c3(ctx):
     mutate.effect_census(ctx, only_reachable_from_mutate=True)
 
 
+def c4(ctx):
+    mutate.serialization_fails_loudly(ctx)
+
+
 CLAUSES = [
     ("C06.1", "handler discipline around the yield (R-EXC)", c1),
     ("C06.2-4", "nothing that can fail for data reasons happens after truncation; backup complete first (R-ORDER)", c2),
     ("C06.5", "write-effect census over mutate's call tree", c3),
+    ("C06.6", "a failing serialization raises out of str(simfile): nothing swallows it (R-EXC)", c4),
 ]
